@@ -15,6 +15,7 @@ import (
 	"io"
 	"math/rand/v2"
 	"os"
+	"runtime"
 	"runtime/debug"
 	"sort"
 	"sync"
@@ -516,4 +517,14 @@ func Readers(b []byte) map[string]func() io.Reader {
 		"31-byte":  func() io.Reader { return Chunked(bytes.NewReader(b), 31) },
 		"data+EOF": func() io.Reader { return DataEOF(b) },
 	}
+}
+
+// GCNow forces a garbage collection and lets finalizers run: objects the caller has dropped are collected now, not
+// at some later point a test never reaches. Used between the creation of a derived object and the next use of the
+// object it was derived from (or the other way round).
+func GCNow() {
+	runtime.GC()
+	runtime.Gosched()
+	time.Sleep(300 * time.Microsecond)
+	runtime.GC()
 }
